@@ -4,12 +4,13 @@ import vpcheck as V
 LEVEL_TEXT = ("bounded symbolic model checking of int.cc lowered from clang IR: every operator is checked for ALL pairs of "
               "(64-bit payload, signedness) operands against an exact 128-bit oracle; no loops in the code under test")
 
-MULT = ['c08_mul_any', 'c08_mul_smallA', 'c08_mul_smallB', 'c08_mul_pow2', 'c08_div_any', 'c08_div_smallB', 'c08_div_smallQ',
+MULT = ['c08_div_kf_bias', 'c08_mul_any', 'c08_mul_smallA', 'c08_mul_smallB', 'c08_mul_pow2', 'c08_div_any', 'c08_div_smallB', 'c08_div_smallQ',
         'c08_mod_any', 'c08_mod_smallB', 'c08_mod_smallQ']
 
 def modules(ctx):
     ents = ['c08_add', 'c08_sub', 'c08_neg', 'c08_cmp'] + MULT
     m = V.Module(ctx, 'c08', ['int.cc'], 'c08.cc', ents)
+    m.kf_defs = ['VP_KF_' + k['id'] for k in V.load_known('C08') if 'id' in k]
     return {'c08': m}
 
 def run(ctx):
@@ -27,6 +28,10 @@ def run(ctx):
     divmod_any = [('c08_div_any', 900), ('c08_mod_any', 900)]
     classes = [('c08_div_smallB', 600), ('c08_div_smallQ', 600), ('c08_mod_smallB', 600), ('c08_mod_smallQ', 600),
                ('c08_mul_smallA', 300), ('c08_mul_smallB', 300)]
+    for k in V.load_known('C08'):
+        ctx.known.append(k['text'].split(' ', 1)[1])
+    if any(k.get('id') == 'div_bias' for k in V.load_known('C08')):
+        full.append(('c08_div_kf_bias', 300))
     plan = full + classes + (divmod_any if ctx.tier != 'quick' or True else [])
     jobs = []
     for e, to in plan:
